@@ -174,6 +174,19 @@ CLAIMED = {
                  "printing, template substitution."),
         "note": "Trusted: clang 14 AST; classes that compare by pointer identity are never merged.",
     },
+    "C09": {
+        "level": "other",
+        "design_ref": "DESIGN.md section 3, C09 (R09.1, R09.2)",
+        "technique": "if-chain table extraction + gated reachability, compared with the [cpp.cond] automaton; effect whitelist of the skipper",
+        "text": ("Decides the directive-automaton clause of C09: process_directive dispatches #if/#ifdef/#ifndef to their handlers, all four "
+                 "alternatives of a taken group to skip_false_if_block(false), #endif to nothing; #ifdef/#ifndef skip (considering "
+                 "alternatives) on opposite outcomes of is_manifest_defined, #if skips exactly when the evaluated value is zero or "
+                 "unevaluable; while skipping, the three openers only nest, the four alternatives act only at level 0 when alternatives are "
+                 "considered (re-testing through the opener's own handler), #endif returns at level 0 and otherwise un-nests once; the "
+                 "skipper calls nothing but scanner primitives, writes no state and restores comment saving on every exit.  Not decided: "
+                 "the value of the controlling expression (C07/C15 rules), defined()/__has_include rewriting, '#' recognition."),
+        "note": "Trusted: clang 14 AST/CFG; ivf/spec/cpp_conditional.json.",
+    },
 }
 
 NOT_APPLICABLE = {
